@@ -4,6 +4,7 @@ package interp
 // library functions that are body-less or use unsafe, and environment stubs.
 
 import (
+	"sort"
 	"fmt"
 	"go/token"
 	"go/types"
@@ -122,6 +123,24 @@ func init() {
 				}
 			}
 			return tuple{"", false}
+		},
+		"os.Environ": func(fr *frame, args []value) value {
+			// "key=value" for every variable of the modelled environment, in a fixed order;
+			// values may have symbolic bytes
+			var keys []string
+			if cur != nil {
+				for k := range cur.env {
+					keys = append(keys, k)
+				}
+			}
+			sort.Strings(keys)
+			out := make([]value, 0, len(keys))
+			for _, k := range keys {
+				b := append([]value{}, strBytes(k+"=")...)
+				b = append(b, strBytes(cur.env[k])...)
+				out = append(out, normStr(b))
+			}
+			return out
 		},
 		"os.Getenv": func(fr *frame, args []value) value {
 			k, _ := args[0].(string)
